@@ -35,6 +35,7 @@ Proof.
   - rewrite (ttoks_binary (ECond neg e1 e2) _ _ _ eq_refl). destruct (IHe1 ltac:(assumption)) as (t & r & -> & Ht). eexists _, _. split; [reflexivity|exact Ht].
   - rewrite (ttoks_binary (EElse e1 e2) _ _ _ eq_refl). destruct (IHe1 ltac:(assumption)) as (t & r & -> & Ht). eexists _, _. split; [reflexivity|exact Ht].
   - rewrite ttoks_nested. eexists _, _. split; reflexivity.
+  - rewrite ttoks_reapply. eexists _, _. split; reflexivity.
 Qed.
 
 Lemma ttoks_last lvl : forall e, efrag lvl e = true -> exists r t, ttoks e = r ++ [t] /\ is_trim t = false.
@@ -68,6 +69,7 @@ Proof.
     exists (ttoks e1 ++ W :: TT_ElseJump :: W :: r), t. split; [rewrite <- app_assoc; reflexivity|exact Ht].
   - rewrite ttoks_nested. exists (TT_StartExpression :: W :: ttoks e ++ [W]), TT_EndExpression.
     split; [cbn [app]; rewrite <- app_assoc; reflexivity|reflexivity].
+  - rewrite ttoks_reapply. destruct (IHe ltac:(assumption)) as (r & t & -> & Ht). exists (TT_Reapply :: W :: r), t. split; [reflexivity|exact Ht].
 Qed.
 
 Lemma trim_printed lvl e : efrag lvl e = true -> trim_tokens (ttoks e) = (0, ttoks e).
@@ -205,6 +207,7 @@ Proof.
   - apply Forall_app. split; [apply IHe1; assumption|constructor; [exact I|apply IHe2; assumption]].
   - apply Forall_app. split; [apply IHe1; assumption|constructor; [exact I|apply IHe2; assumption]].
   - constructor; [exact I|]. apply Forall_app. split; [apply IHe; assumption|constructor; [exact I|constructor]].
+  - constructor; [exact I|apply IHe; assumption].
 Qed.
 
 (* ---- where identifiers and properties may stand ---- *)
@@ -218,6 +221,7 @@ Fixpoint acc_ok (fl : bool) (e : expr) : bool :=
   | EUn o x => if is_prefix o then acc_ok (is_access (hdef e)) x else acc_ok fl x
   | EGroup x => acc_ok false x
   | ENested _ b => acc_ok false b
+  | EReapply x => acc_ok (is_access (hdef e)) x
   | EBin _ l r | EAnd l r | EOr l r | EList _ l r | ECond _ l r | EElse l r =>
       acc_ok fl l && acc_ok (is_access (hdef e)) r
   | _ => true
@@ -275,6 +279,8 @@ Proof.
     cbn [wf] in Wf. repeat (apply andb_true_iff in Wf; let W := fresh "W" in destruct Wf as [Wf W]). cbn [acc_ok].
     change (is_access (hdef (EElse e1 e2))) with false. rewrite IHe1, IHe2; auto.
   - cbn [wf] in Wf. cbn [acc_ok]. apply IHe; [assumption|eapply wf_true_false; eauto|exact (paren_ok_nested _ _ P)].
+  - cbn [wf] in Wf. cbn [acc_ok]. change (is_access (hdef (EReapply e))) with false.
+    apply IHe; [assumption|exact Wf|exact (paren_ok_reapply _ P)].
 Qed.
 
 (* ---- from the erased tree and the invariant to the correspondence ---- *)
@@ -329,6 +335,9 @@ Proof.
   - cbn [rtree_of_expr rep acc_ok] in *.
     destruct T as [| | | |b i k a]; try discriminate E. cbn [erase] in E. injection E as Eb Ek Ea. subst b. cbn [pfix] in Pf.
     split; [exact Ek|]. eapply IHe; eauto.
+  - cbn [rtree_of_expr rep acc_ok] in *.
+    destruct T as [|i d k a| | |]; try discriminate E. cbn [erase] in E. injection E as Ed Ek Ea. cbn [pfix] in Pf.
+    subst d. split; [reflexivity|]. split; [exact Ek|]. eapply IHe; eauto.
 Qed.
 
 (* ---- the parser model on the printed tokens ---- *)
